@@ -35,6 +35,7 @@ type subRec struct {
 	subscribed  bool
 	unsubPlan   bool
 	unsubTwice  bool
+	subCancel   int // >= 0: the Subscribe call's own context ends that many scheduling points into it
 	stopRecv    bool // stop receiving as soon as Unsubscribe returned (C09 family)
 	slow        int  // milliseconds (fake clock) this subscriber takes per message
 	got         []delivery
@@ -125,7 +126,22 @@ func brokerWorkload(w *W, h *Hist, bs *brokerSetup, faults bool) ([]*pubRec, []*
 		for i := 0; i < delay; i++ {
 			simrt.Yield()
 		}
-		ch := bs.b.Subscribe(sr.ctx)
+		sctx := sr.ctx
+		if k := sr.subCancel; k >= 0 {
+			// the context of the Subscribe call itself ends while the request
+			// is in flight: the call either fails (nil) or hands out a channel
+			// that works like any other - never a subscription nobody holds
+			c, cancel := context.WithCancel(sr.ctx)
+			sctx = c
+			simrt.Spawn(fmt.Sprintf("sub%d-subscribe-context-ends", sr.id), func() {
+				for j := 0; j < k; j++ {
+					simrt.Yield()
+				}
+				cancel()
+			})
+			w.Fault("subscribe-context-ends-in-flight")
+		}
+		ch := bs.b.Subscribe(sctx)
 		if ch == nil {
 			sr.ctlDone = true
 			return
@@ -164,7 +180,7 @@ func brokerWorkload(w *W, h *Hist, bs *brokerSetup, faults bool) ([]*pubRec, []*
 			if again {
 				// the same client subscribes again: a new channel with a window
 				// of its own (nothing from before may be replayed into it twice)
-				nsr := &subRec{id: nextSubID}
+				nsr := &subRec{id: nextSubID, subCancel: -1}
 				nextSubID++
 				nsr.ctx, nsr.cancel = sr.ctx, sr.cancel
 				subs = append(subs, nsr)
@@ -185,6 +201,10 @@ func brokerWorkload(w *W, h *Hist, bs *brokerSetup, faults bool) ([]*pubRec, []*
 		unsubAt := simrt.Choose(150)
 		again := sr.unsubPlan && simrt.Choose(2) == 0
 		sr.unsubTwice = sr.unsubPlan && simrt.Choose(3) == 0
+		sr.subCancel = -1
+		if simrt.Choose(4) == 0 {
+			sr.subCancel = simrt.Choose(8)
+		}
 		subs = append(subs, sr)
 		simrt.Spawn(fmt.Sprintf("sub%d-control", s), func() { runSub(sr, delay, unsubAt, again) })
 	}
